@@ -226,12 +226,29 @@ func (env *Env) localAtSite(name string) (ssa.Value, bool, bool) {
 			first = false
 		}
 		for i := end - 1; i >= 0; i-- {
-			if dr, ok := instrs[i].(*ssa.DebugRef); ok {
-				if obj := dr.Object(); obj != nil && obj.Name() == name {
+			switch x := instrs[i].(type) {
+			case *ssa.DebugRef:
+				if obj := x.Object(); obj != nil && obj.Name() == name {
 					if _, isVar := obj.(*types.Var); isVar {
-						if _, have := f.vals[dr.X]; have || isConstLike(dr.X) {
-							return dr.X, dr.IsAddr, true
+						if _, have := f.vals[x.X]; have || isConstLike(x.X) {
+							// a use of an address-taken variable is a load from its cell: read the cell now
+							if ld, ok := x.X.(*ssa.UnOp); ok && !x.IsAddr && ld.Op == token.MUL {
+								if al, ok := ld.X.(*ssa.Alloc); ok && al.Comment == name {
+									return al, true, true
+								}
+								if fv, ok := ld.X.(*ssa.FreeVar); ok && fv.Name() == name {
+									return fv, true, true
+								}
+							}
+							return x.X, x.IsAddr, true
 						}
+					}
+				}
+			case *ssa.Phi:
+				// a merge of the variable at this block: the current value even if not referenced since
+				if x.Comment == name {
+					if _, have := f.vals[x]; have {
+						return x, false, true
 					}
 				}
 			}
